@@ -34,6 +34,12 @@ def run_history(target, hist, pool):
     steps = []
     for ns_i, key in hist:
         ns = NS[target][ns_i - 1]
+        if key[0] == "clear":                     # phase-function boundary (only the Python manager has one)
+            outs.append(None)
+            if target == "python":
+                mgr.clear_locals()
+                steps.append({"ns": "clear", "key": [], "out": [], "keys": "", "outs": ""})
+            continue
         if key[0] == "echo":                      # echo of an earlier answer
             if key[1] > len(outs) or outs[key[1] - 1] is None:
                 outs.append(None)
@@ -142,7 +148,9 @@ def run(chk):
     meta = []
     for target in ("python", "fortran"):
         nns = len(NS[target])
-        hs = gen_histories(chk, len(POOL_SMALL), nns, 3 if chk.quick else 4, 2)
+        # the Python manager has a phase-function boundary (clear_locals): one lookup more, so that a boundary can sit
+        # between two lookups on each side
+        hs = gen_histories(chk, len(POOL_SMALL), nns, (3 if chk.quick else 4) + (target == "python"), 2)
         for h in hs:
             cases.append({"target": target, "steps": run_history(target, h, POOL_SMALL)})
             meta.append(("exhaustive", h))
